@@ -287,6 +287,11 @@ def tile_query(prog: Program) -> List[Instance]:
     for n in walk_own(c.node):
         if isinstance(n, ast.BinOp) and isinstance(n.op, ast.Mult) and isinstance(n.left, ast.UnaryOp) and isinstance(n.left.op, ast.Invert):
             okd = names_in(n.left) == {srcp} and names_in(n.right) == {c.self_name}
+    for n in walk_own(c.node):
+        if isinstance(n, ast.Call) and call_name(n) == "snap_affine":
+            relaxed = [k for k in n.keywords if k.arg == "tol"] + list(n.args[3:4])
+            out.append(Instance("R-GUARDSEQ", f"{c.qual}#rotation-tolerance", BAD if relaxed else OK,
+                                "snap_affine is given its own rotation tolerance: small rotations are zeroed and the pair is treated as scale+translation" if relaxed else "rotation tolerance of snap_affine left at its tight default", c.where(n)))
     out.append(Instance("R-GUARDSEQ", f"{c.qual}#direction", OK if okd else BAD, "pixel-to-pixel affine maps destination pixels into source pixels (~src * dst)" if okd else "pixel-to-pixel affine of the linear path is not ~src.transform * self.transform", c.where()))
     return out
 
